@@ -409,6 +409,29 @@ def gen_fs_cases(rng, extra):
     return cases
 
 
+def gen_irt_cases(rng, big):
+    """integers written by the stream and read back by the input layer, the last value with NOTHING after it: files whose size is
+    an exact multiple of the page size (mmap: nothing of the file follows the last digit), and read() backends (istream, gzip)
+    whose buffer has been refilled, so that digits of earlier values lie behind the valid bytes -- with small buffers and with
+    the default 1 MB one"""
+    cases = []
+    for kind in "UI":
+        for pages in (1, 2, 3, 5):
+            cases.append("IRT %s M 1 %x %x 0" % (kind, 4096 * pages, rng.below(1 << 30)))
+        cases.append("IRT %s M 100000 %x %x 0" % (kind, 4096 * rng.range(1, 8), rng.below(1 << 30)))
+        for _ in range(4 if not big else 30):
+            cases.append("IRT %s M %x 0 %x %x" % (kind, rng.choice([1, 4096, 1 << 20]), rng.below(1 << 30), rng.range(1, 3000)))
+        for backend in "SZ":
+            for minb in (1, 4096, 1 << 16):
+                window = 4096 * max(minb // 4096 + 1, 2)
+                for _ in range(2 if not big else 10):
+                    cases.append("IRT %s %s %x 0 %x %x" % (kind, backend, minb, rng.below(1 << 30), rng.range(window // 6, window // 2)))
+            # the default buffer (1 MB + a page): more than a megabyte of digits in front of the last value
+            for _ in range(1 if not big else 6):
+                cases.append("IRT %s %s 100000 0 %x %x" % (kind, backend, rng.below(1 << 30), rng.range(110000, 160000)))
+    return cases
+
+
 def gen_parser_hazards(rng, n):
     """(case line, expected bits) for ReadFloat / ReadDouble"""
     out = []
@@ -591,6 +614,15 @@ def run(ctx):
                 else "FileStream(fd, %d): %s" % (size, "file content differs from the StringStream text" if len(f) == 3 else o[:200])
             fails.append(("filestream:" + ("overrun" if "OVERRUN" in o else "content"), c, o, what))
     ctx.coverage["filestream_cases"] = len(fsc)
+    # ---- integers through the streams and back, ending without a newline
+    irt = gen_irt_cases(rng, not ctx.quick)
+    iro = vlib.run_lines(impl, irt, timeout=900)
+    for c, o in zip(irt, iro):
+        if not o.startswith("ok "):
+            f = c.split()
+            fails.append(("int-roundtrip:%s:%s" % ({"M": "mmap", "S": "istream", "Z": "gzip"}[f[2]], f[1].lower()), c, o,
+                          "integers written with FileStream << and read back with %s (%s, min_buffer %s): %s" % ("ReadLong" if f[1] == "I" else "ReadULong", f[2], f[3], o[:200])))
+    ctx.coverage["integer_stream_roundtrips"] = len(irt)
     if consts.get("_file_stream_problem"):
         fails.append(("translator:file_stream", "regenerate", "", "the tie to util/file_stream.hh is broken: " + consts["_file_stream_problem"]))
     ctx.coverage["parser_midpoint_cases"] = len(hz)
@@ -710,6 +742,9 @@ def replay(ctx, obj):
     c = obj["replay"]["case"]
     o = vlib.run_lines(impl, [c])[0]
     k = c.split()[0]
+    if k == "IRT":
+        print("case:", c, "\nimpl:", o)
+        return 0 if o.startswith("ok ") else 1
     if k == "FS":
         print("case:", c, "\nimpl:", o)
         f = o.split()
